@@ -1270,6 +1270,37 @@ example : WellSpelledTokens .document declFirstTokens :=
       subst hd; rfl⟩,
     by decide +kernel⟩
 
+/-- On strings: `<a>x</a>` is accepted (tokenizer and builder), so the tokenizer came to its end and
+    its tokens are a well-formed spelling. -/
+example : (lexMode .document ['<', 'a', '>', 'x', '<', '/', 'a', '>']).2 = none ∧
+    WellSpelledTokens .document (lexMode .document ['<', 'a', '>', 'x', '<', '/', 'a', '>']).1 := by
+  apply (C03_string_accepts_iff envBaseNs_fresh .document _).mp
+  have hok : (parseString .document Env.fresh ['<', 'a', '>', 'x', '<', '/', 'a', '>']).isOk = true := by
+    have h := lexDocument_render lexWitness3 (by decide)
+    rw [show renderTokens lexWitness3 = ['<', 'a', '>', 'x', '<', '/', 'a', '>'] from by decide] at h
+    simp only [parseString, lexMode]
+    rw [h, build_eq_buildE]; decide +kernel
+  cases hb : parseString .document Env.fresh ['<', 'a', '>', 'x', '<', '/', 'a', '>'] with
+  | ok p => exact ⟨p, rfl⟩
+  | err e env' => rw [hb] at hok; cases hok
+  | panic => rw [hb] at hok; cases hok
+
+/-- … and `<a></b>` (which the tokenizer reads without error) is refused, so its tokens are no
+    well-formed spelling. -/
+example : ¬ WellSpelledTokens .document (lexMode .document ['<', 'a', '>', '<', '/', 'b', '>']).1 := by
+  intro hw
+  have h := lexDocument_render [.elementStart ⟨[], 0⟩ ⟨['a'], 0⟩ ⟨[], 0⟩, .elementEnd .open ⟨[], 0⟩,
+    .elementEnd (.close ⟨[], 0⟩ ⟨['b'], 0⟩) ⟨[], 0⟩] (by decide)
+  rw [show renderTokens [.elementStart ⟨[], 0⟩ ⟨['a'], 0⟩ ⟨[], 0⟩, .elementEnd .open ⟨[], 0⟩,
+    .elementEnd (.close ⟨[], 0⟩ ⟨['b'], 0⟩) ⟨[], 0⟩] = ['<', 'a', '>', '<', '/', 'b', '>'] from by decide] at h
+  have hle : (lexMode .document ['<', 'a', '>', '<', '/', 'b', '>']).2 = none := by
+    simp only [lexMode]; rw [h]
+  obtain ⟨p, hp⟩ := (C03_string_accepts_iff envBaseNs_fresh .document _).mpr ⟨hle, hw⟩
+  have herr : (parseString .document Env.fresh ['<', 'a', '>', '<', '/', 'b', '>']).isOk = false := by
+    simp only [parseString, lexMode]
+    rw [h, build_eq_buildE]; decide +kernel
+  rw [hp] at herr; cases herr
+
 end CompletenessExamples
 
 end XotModel.Props
